@@ -617,6 +617,9 @@ class ABCTune(object):
                 'Colon-only repeats must be divisible by 2: {}'.format(
                     match.group(1)))
           backward_repeats = forward_repeats = int((colon_count / 2) + 1)
+          # '::' is a bar line too (the same as ':|:'), so clear the bar-wise
+          # accidentals.
+          self._bar_accidentals.clear()
         elif match.re == ABCTune.BAR_AND_REPEAT_SYMBOLS_PATTERN:
           # We're in a new bar, so clear the bar-wise accidentals.
           self._bar_accidentals.clear()
